@@ -233,23 +233,27 @@ Qed.
    of the function's shape). *)
 From CL Require Import Model.Summaries Proofs.SummariesProofs.
 
-(* With at least one project observer the text never raises and consists, for
+(* [unsortable]: the list counted something for a file without locale (None, id
+   0) AND for at least one other locale: `sorted` raises TypeError.  Otherwise,
+   with at least one project observer the text never raises and consists, for
    the locales of the list's own summary in ascending order (each once), of the
-   locale line, the rows and the percent line of the LAST column.  Without any
-   project observer it is empty when nothing was counted and IndexError
-   otherwise. *)
+   locale line (none for None), the rows and the percent line of the LAST
+   column.  Without any project observer it is empty when nothing was counted
+   and IndexError otherwise. *)
 Theorem C10_summaries_text : forall st,
-  (l_obs st <> [] ->
-     serialize_summaries st =
-       Ok (flat_map (block_lines st) (sort_locs (map fst (o_summary (l_own st)))))) /\
-  (l_obs st = [] ->
+  let locs := map fst (o_summary (l_own st)) in
+  (unsortable locs = true -> serialize_summaries st = Raise TypeError) /\
+  (unsortable locs = false -> l_obs st <> [] ->
+     serialize_summaries st = Ok (flat_map (block_lines st) (sort_locs locs))) /\
+  (unsortable locs = false -> l_obs st = [] ->
      serialize_summaries st =
        match o_summary (l_own st) with [] => Ok [] | _ :: _ => Raise IndexError end) /\
-  Sorted.Sorted N.le (sort_locs (map fst (o_summary (l_own st)))) /\
-  Permutation.Permutation (map fst (o_summary (l_own st)))
-                          (sort_locs (map fst (o_summary (l_own st)))).
+  Sorted.Sorted N.le (sort_locs locs) /\
+  Permutation.Permutation locs (sort_locs locs).
 Proof.
-  intros st. split; [exact (serialize_ok st)|]. split; [exact (serialize_no_observers st)|].
+  intros st locs. split; [exact (serialize_unsortable st)|].
+  split; [intros U H; exact (serialize_ok st H U)|].
+  split; [intros U H; exact (serialize_no_observers st H U)|].
   split; [apply sort_locs_sorted|apply sort_locs_perm].
 Qed.
 
